@@ -154,6 +154,9 @@ type c07Obs struct {
 	routes  int
 	adjIn   int
 	unread  bool
+	// admin state carried by the last peer-state event of this step
+	watchAdm    api.PeerState_AdminState
+	watchAdmSet bool
 }
 
 func (o c07Obs) String() string {
@@ -480,6 +483,7 @@ func (h *c07H) observe(target *c07Conn, rib bool) c07Obs {
 			h.violation("c07:edge:reported-state-"+w.st.String(), fmt.Sprintf("WatchEvent reported session state %s, which gobgp's state machine does not have", w.st))
 		}
 		o.trans = append(o.trans, c07XTr{st, w.at})
+		o.watchAdm, o.watchAdmSet = w.adm, true
 	}
 	h.wseen = len(h.wev)
 	h.wmu.Unlock()
@@ -772,6 +776,13 @@ func (h *c07H) check(ev c07Ev, dur int64, o c07Obs) {
 		if !h.softs[k] {
 			h.softs[k] = true
 			h.violation(k, fmt.Sprintf("model state %s, event %s: the NOTIFICATION's Data field is not what RFC 4271 section 6 demands: gobgp showed {%s}; admissible {%s}", canon.st, ev, o, strings.Join(admissible, " | ")))
+		}
+	}
+	// the two API views of the admin state must agree at quiescence
+	if o.present && o.watchAdmSet {
+		want := map[c07Adm]api.PeerState_AdminState{c07Up: api.PeerState_ADMIN_STATE_UP, c07Down: api.PeerState_ADMIN_STATE_DOWN, c07PfxCt: api.PeerState_ADMIN_STATE_PFX_CT}[o.adm]
+		if o.watchAdm != want {
+			h.violation("c07:reported-admin-state:watchevent-vs-listpeer", fmt.Sprintf("model state %s, event %s: the last peer-state event carries admin state %s, ListPeer reports %s", canon.st, ev, o.watchAdm, want))
 		}
 	}
 	// reported timers of an established session
